@@ -1,12 +1,20 @@
 // Harness for C05: interprets LU scripts against Bpp/Numeric/Matrix/LUDecomposition.h and
 // MatrixTools::inv / MatrixTools::det.  The `case` line chooses the storage class
 // (row | col | lin) of the factored matrix, of the right-hand side and of the output matrix.
+// The in/out parameters -- the output matrix X of solve / MatrixTools::inv and the output vector x
+// of the std::vector overload -- are objects that live as long as the case: every call receives
+// them in the state the previous operations left them (initially default-constructed / empty).
 //
+//   xset r c <r*c hex>        X becomes a fresh r x c matrix (class of the case line) with these entries
+//   xvset k <k hex>           x becomes a vector with these k elements
 //   lu m n <m*n hex>          construct LUDecomposition<double>; answer
 //                             piv <m ints> ; L <m*n hex> ; U <n*n hex> ; det <hex>
 //   solve mb nx <mb*nx hex>   solve with the current object; answer  minD <hex> ; X <rows cols> <hex...>
+//   solveip mb nx <mb*nx hex> X becomes B (class of X), then solve(X, X); answer as solve
+//   solvevip mb <mb hex>      x becomes b, then the vector overload solve(x, x); answer as solvev
 //   solvev mb <mb hex>        the std::vector overload of solve; answer  minD <hex> ; X <len> 1 <hex...>
-//   inv m n <m*n hex>         MatrixTools::inv; answer as solve
+//   inv m n <m*n hex>         MatrixTools::inv(A, X); answer as solve
+//   invip m n <m*n hex>       X becomes A (class of X), then MatrixTools::inv(X, X); answer as solve
 //   det m n <m*n hex>         MatrixTools::det; answer <hex>
 //   dett n <n*n hex>          MatrixTools::det of A and of its transpose; answer <hex> <hex>
 //   detmul n <A> <B>          MatrixTools::det of A, B and A*B (product formed here, exact for the
@@ -42,10 +50,23 @@ static std::string show(const Matrix<double>& M) {
 struct St {
   std::string sA = "row", sB = "row", sX = "row";
   std::unique_ptr<LUDecomposition<double>> lu;
+  std::unique_ptr<Matrix<double>> X;   // in/out parameter of solve / inv
+  std::vector<double> xv;              // in/out parameter of the vector overload
 };
 
 static std::string doOp(St& s, const Toks& t) {
   const std::string& o = t[0];
+  if (!s.X) s.X = mk(s.sX, 0, 0);
+  if (o == "xset") {
+    size_t pos = 1; s.X = parse(s.sX, t, pos);
+    return "ok";
+  }
+  if (o == "xvset") {
+    size_t k = toU(t.at(1));
+    s.xv.assign(k, 0.0);
+    for (size_t i = 0; i < k; ++i) s.xv[i] = hexToDouble(t.at(2 + i));
+    return "ok";
+  }
   if (o == "lu") {
     size_t pos = 1; auto A = parse(s.sA, t, pos);
     s.lu.reset(new LUDecomposition<double>(*A));
@@ -57,25 +78,46 @@ static std::string doOp(St& s, const Toks& t) {
   if (o == "solve") {
     if (!s.lu) return "no-lu";
     size_t pos = 1; auto B = parse(s.sB, t, pos);
-    auto X = mk(s.sX, 1, 2); (*X)(0, 0) = 7.0; (*X)(0, 1) = -7.0;   // stale content of another shape
-    double d = s.lu->solve(*B, *X);
-    return "minD " + hx(d) + " ; X " + show(*X);
+    double d = s.lu->solve(*B, *s.X);
+    return "minD " + hx(d) + " ; X " + show(*s.X);
+  }
+  if (o == "solveip") {
+    // solve(B, B): the right-hand side is also the output (class of X)
+    if (!s.lu) return "no-lu";
+    size_t pos = 1; s.X = parse(s.sX, t, pos);
+    double d = s.lu->solve(*s.X, *s.X);
+    return "minD " + hx(d) + " ; X " + show(*s.X);
+  }
+  if (o == "solvevip") {
+    if (!s.lu) return "no-lu";
+    size_t mb = toU(t.at(1));
+    s.xv.assign(mb, 0.0);
+    for (size_t i = 0; i < mb; ++i) s.xv[i] = hexToDouble(t.at(2 + i));
+    double d = s.lu->solve(s.xv, s.xv);
+    std::string r = "minD " + hx(d) + " ; X " + std::to_string(s.xv.size()) + " 1";
+    for (double v : s.xv) r += " " + hx(v);
+    return r;
   }
   if (o == "solvev") {
     if (!s.lu) return "no-lu";
     size_t mb = toU(t.at(1));
-    std::vector<double> b(mb), x(3, 7.0);   // stale content of another length
+    std::vector<double> b(mb);
     for (size_t i = 0; i < mb; ++i) b[i] = hexToDouble(t.at(2 + i));
-    double d = s.lu->solve(b, x);
-    std::string r = "minD " + hx(d) + " ; X " + std::to_string(x.size()) + " 1";
-    for (double v : x) r += " " + hx(v);
+    double d = s.lu->solve(b, s.xv);
+    std::string r = "minD " + hx(d) + " ; X " + std::to_string(s.xv.size()) + " 1";
+    for (double v : s.xv) r += " " + hx(v);
     return r;
   }
   if (o == "inv") {
     size_t pos = 1; auto A = parse(s.sA, t, pos);
-    auto X = mk(s.sX, 2, 1); (*X)(0, 0) = 7.0; (*X)(1, 0) = -7.0;
-    double d = MatrixTools::inv(*A, *X);
-    return "minD " + hx(d) + " ; X " + show(*X);
+    double d = MatrixTools::inv(*A, *s.X);
+    return "minD " + hx(d) + " ; X " + show(*s.X);
+  }
+  if (o == "invip") {
+    // in-place inverse MatrixTools::inv(A, A): the constructor copies A before O (= A) is resized
+    size_t pos = 1; s.X = parse(s.sX, t, pos);
+    double d = MatrixTools::inv(*s.X, *s.X);
+    return "minD " + hx(d) + " ; X " + show(*s.X);
   }
   if (o == "det") {
     size_t pos = 1; auto A = parse(s.sA, t, pos);
